@@ -28,7 +28,7 @@ pub const PANIC_FAMILY: [&str; 7] = [
     "builtin_redefined",
 ];
 
-const ALL_MUTATIONS: [&str; 44] = [
+const ALL_MUTATIONS: [&str; 46] = [
     // violating
     "dup_type",
     "dup_field",
@@ -61,6 +61,8 @@ const ALL_MUTATIONS: [&str; 44] = [
     "default_null_for_nonnull",
     "default_enum",
     "default_object",
+    "default_list_with_bad_element",
+    "default_valid_list",
     "edge_list_of_list",
     "ambiguous_origin",
     "builtin_redefined",
@@ -103,7 +105,7 @@ fn pick_inherited(c: &mut Choices<'_>, s: &SchemaDoc, edges: Option<bool>) -> Op
 fn apply(c: &mut Choices<'_>, s: &mut SchemaDoc, label: &'static str) -> Option<Applied> {
     let vi = vertex_indices(s);
     let pick_v = |c: &mut Choices<'_>| vi[c.below(vi.len())];
-    let violating = !label.starts_with("benign_");
+    let violating = !label.starts_with("benign_") && label != "default_valid_list";
     match label {
         "dup_type" => {
             let t = s.types[pick_v(c)].clone();
@@ -320,6 +322,47 @@ fn apply(c: &mut Choices<'_>, s: &mut SchemaDoc, label: &'static str) -> Option<
                 name: "computed".into(),
                 ty: Ty::named("Int", true),
                 params: vec![ParamDef { name: "scale".into(), ty: Ty::named("Int", true), default: None }],
+                doc: None,
+            });
+        }
+        "default_list_with_bad_element" | "default_valid_list" => {
+            // list defaults: every element has to fit, also below a nested list and also when it is an enum or an
+            // input-object literal (those cannot even be converted to a value). Expressible defaults are real values, so
+            // the reference validator type-checks them on its own; enum / object elements travel as raw marker text.
+            // (the benign variant goes onto an object type: a new field on an interface would have to be repeated by
+            // every implementer)
+            let objects: Vec<usize> = vi.iter().copied().filter(|i| !s.types[*i].is_interface).collect();
+            let ti = if label == "default_valid_list" && !objects.is_empty() { objects[c.below(objects.len())] } else { pick_v(c) };
+            if label == "default_valid_list" && s.types[ti].is_interface {
+                return None;
+            }
+            let target = s.types[vi[0]].name.clone();
+            let int = |v: i128| Value::int(v);
+            let l = Value::List;
+            let (nulls, default): (Vec<bool>, Value) = if label == "default_valid_list" {
+                match c.below(4) {
+                    0 => (vec![false, false], l(vec![int(1), int(2), int(3)])),
+                    1 => (vec![true, true], l(vec![int(1), Value::Null])),
+                    2 => (vec![true, true, true], l(vec![l(vec![int(1)]), Value::Null, l(vec![])])),
+                    _ => (vec![true, false], l(vec![])),
+                }
+            } else {
+                match c.below(8) {
+                    0 => (vec![false, false], Value::Str("\u{1}RAW:[1, {a: 2}, 3]".into())),
+                    1 => (vec![true, true], Value::Str("\u{1}RAW:[RED]".into())),
+                    2 => (vec![true, true, true], Value::Str("\u{1}RAW:[[1], {a: 1}]".into())),
+                    3 => (vec![false, false], l(vec![int(1), Value::Bool(true)])),
+                    4 => (vec![true, false], l(vec![int(1), Value::Null])),
+                    5 => (vec![true, true, false], l(vec![l(vec![int(1)]), l(vec![Value::Null])])),
+                    6 => (vec![true, true, true], l(vec![l(vec![int(1)]), int(2)])),
+                    _ => (vec![true, true], l(vec![Value::Float(1.5)])),
+                }
+            };
+            let n_fields = s.types[ti].fields.len();
+            s.types[ti].fields.push(FieldDef {
+                name: format!("{}_list_default_edge{}", if label == "default_valid_list" { "good" } else { "bad" }, n_fields),
+                ty: Ty { base: target, nulls: vec![true, false] },
+                params: vec![ParamDef { name: "xs".into(), ty: Ty { base: "Int".into(), nulls }, default: Some(default) }],
                 doc: None,
             });
         }
